@@ -30,4 +30,7 @@ void h_mm_slice(void) { load_tokens(); long rb = replay_get("row_beg", 0), re = 
     assert(r2 == 0); assert(rows2 == re - rb && pl2 == re - rb + 1); assert(cl2 == p1[re] - p1[rb]);
     for (int i = 0; i <= re - rb; ++i) assert(p2[i] == p1[rb + i] - p1[rb]); for (int j = 0; j < cl2; ++j) assert(c2[j] == c1[p1[rb] + j] && v2[j] == v1[p1[rb] + j]);
 }
+int k_mm_read_dense(long, long, long*, long*, int*, int, int*);
+void h_mm_dense_robust(void) { load_tokens(); long rb = replay_get("row_beg", -1), re = replay_get("row_end", -1), rows = -7, cols = -7; int val[64], vl = -7;
+    int r = k_mm_read_dense(rb, re, &rows, &cols, val, 64, &vl); assert(r == 0 || r == 1); if (r == 0) { assert(rows >= 0); assert(cols >= 0 || rows == 0); assert((long)vl == rows * cols); } }
 int main(void) { REPLAY_FN(); printf("replay: all harness assertions hold on the real code\n"); return 0; }
